@@ -401,3 +401,23 @@ Fixpoint disciplined (cfg : config) (orc : oracle) (sched : list nat) (st : stat
 
 Definition observe_disciplined (cfg : config) (orc : oracle) (sched : list nat) (ths : list thread) : bool :=
   disciplined cfg orc sched (init_state cfg) ths.
+
+(* ------------------------------------------------------------------ *)
+(* Options of a long-lived optimizer object can be changed between (or during) queries: `opt.cache_only = True`,
+   `opt.overwrite = 'improved'`, and each query may come through search or __call__.  A history is a list of
+   segments, each run under its own configuration; the shared state and the threads carry over. *)
+Fixpoint run_segs (orc : oracle) (segs : list (config * list nat)) (st : state) (ths : list thread)
+  : state * list thread * list (nat * nat) :=
+  match segs with
+  | [] => (st, ths, [])
+  | (cfg, sched) :: rest =>
+      let '(st1, ths1, tr1) := run cfg orc sched st ths in
+      let '(st2, ths2, tr2) := run_segs orc rest st1 ths1 in
+      (st2, ths2, tr1 ++ tr2)
+  end.
+
+Definition observe_segs (cfg0 : config) (orc : oracle) (segs : list (config * list nat)) (ths : list thread) :=
+  let '(st, ths', tr) := run_segs orc segs (init_state cfg0) ths in
+  (tr, (enc_results ths', (map enc_hopt (hheap st), (map enc_ropt (rheap st), bythread st)))).
+Definition observe_segs_is (cfg0 : config) (orc : oracle) (segs : list (config * list nat)) (ths : list thread)
+  (expected : obs) : bool := obs_eqb (observe_segs cfg0 orc segs ths) expected.
